@@ -35,7 +35,7 @@ func manyVerify(cand []byte, es []manyEntry) string {
 		for i, e := range es {
 			pks[i], msgs[i], hs[i] = e.pk, e.msg, e.h
 		}
-		return boolAns(crypto.VerifyBLSSignatureManyMessages(pks, cand, msgs, hs))
+		return stable3(func() string { return boolAns(crypto.VerifyBLSSignatureManyMessages(pks, cand, msgs, hs)) })
 	})
 }
 
